@@ -634,6 +634,43 @@ def render_fn(idx, fs, table, ctx):
     head, ret, where = split_sig(sig)
     opts = {"frac_consts": ctx.get("frac_consts", False), "rename_int": True}
     head_s = rewrite_tokens(head, rules, opts)
+    # R17: a tuple-pattern parameter `(a, b): T` becomes `__arg<k>: T` with `let (a, b) = __arg<k>;` as the first statement of
+    # the body (Verus accepts only identifier parameters; this is the language's own desugaring of pattern parameters)
+    param_lets = []
+    try:
+        po = head_s.index("(")
+        k = po + 1
+        depth = 0
+        start_of_param = True
+        while k < len(head_s):
+            x = head_s[k]
+            if start_of_param and x == "(":
+                d2, e = 0, k
+                while e < len(head_s):
+                    if head_s[e] in ("(", "["):
+                        d2 += 1
+                    elif head_s[e] in (")", "]"):
+                        d2 -= 1
+                        if d2 == 0:
+                            break
+                    e += 1
+                if e + 1 < len(head_s) and head_s[e + 1] == ":":
+                    name = "__arg%d" % len(param_lets)
+                    param_lets.append("let %s = %s ;" % (" ".join(head_s[k:e + 1]), name))
+                    head_s[k:e + 1] = [name]
+                    rules.fired.add("R17")
+            start_of_param = False
+            if x in ("(", "[", "<"):
+                depth += 1
+            elif x in (")", "]", ">"):
+                if depth == 0:
+                    break
+                depth -= 1
+            elif x == "," and depth == 0:
+                start_of_param = True
+            k += 1
+    except ValueError:
+        pass
     if fs.newname:
         head_s[1] = fs.newname
     if fs.selfty:
@@ -792,8 +829,10 @@ def render_fn(idx, fs, table, ctx):
     if fs.selfty:
         body_txt = re.sub(r"\bSelf\b", fs.selfty, body_txt)
     head_txt = ""
+    if param_lets:
+        head_txt = "\n".join(param_lets) + "\n"
     if fs.head.strip():
-        head_txt = fs.head.strip() + "\n"
+        head_txt += fs.head.strip() + "\n"
     if fs.ticks:
         chk = "proof { assert(vticks <= (%s)); }" % fs.ticks
         body_txt = re.sub(r"(?<=[;{}])(\s*)return\b", r"\1" + chk.replace("\\", "\\\\") + " return", body_txt)
